@@ -169,6 +169,15 @@ func (t *SecureTrie) Root() []byte {
 // Copy returns a copy of SecureTrie.
 func (t *SecureTrie) Copy() *SecureTrie {
 	cpy := *t
+	// carry the not yet committed key preimages over, in a map of the copy's own
+	cache := make(map[string][]byte, len(t.secKeyCache))
+	if t == t.secKeyCacheOwner {
+		for k, v := range t.secKeyCache {
+			cache[k] = v
+		}
+	}
+	cpy.secKeyCache = cache
+	cpy.secKeyCacheOwner = &cpy
 	return &cpy
 }
 
